@@ -8,7 +8,7 @@
 (* because another rule is already violated (unknown field, unknown type,    *)
 (* undefined fragment) it yields TRUE, exactly as the specification's rules   *)
 (* are independent of each other.                                            *)
-(* Not modelled: __schema / __type meta fields, @defer/@stream, @oneOf,      *)
+(* Not modelled: @defer/@stream, @oneOf,                                     *)
 (* @specifiedBy, variables inside variable default values (a syntax error).  *)
 EXTENDS GQLDoc
 
